@@ -1,5 +1,7 @@
 import FxVerif.Proofs.C20Fee
 import FxVerif.Proofs.C20Dec
+import FxVerif.Proofs.C20Args
+import FxVerif.Model.C20Run
 /-!
 # C20 — hostile input never crashes a node and cannot dodge the minimum fee
 
@@ -315,5 +317,116 @@ theorem isValidChannelID_format (s : List Char) (h : isValidChannelID s = true) 
         decide_eq_true_eq] at h
       exact ⟨h.1.1.1, h.1.1.2, h.1.2, h.2⟩
   · simp at h
+
+/-! ## precompile `Run`: the decoded arguments satisfy what every construct inside `Run` needs
+
+`Gen/C20Run.lean` (typed translator) is regenerated on every run: the `Validate` body of every argument struct as a program,
+the method tables of both precompiles, and the inventory of potentially panicking constructs inside every `Run` (and the
+functions it calls) with the requirement each one puts on the decoded arguments. -/
+section Run
+open FxVerif.Model.C20Args FxVerif.Gen.C20Run FxVerif.Model.C20Run FxVerif.Proofs.C20Args
+
+/-- the typed translator understood every `Validate` body; `ParseMethodArgs` ends in `Validate()`; every registered method
+decodes its arguments first (`args, err := m.UnpackInput(contract.Input); if err != nil { return }`) into an args struct
+whose `Validate` was translated -/
+theorem run_translator_complete :
+    FxVerif.Gen.C20Run.unknownConstructs = [] ∧ parseMethodArgsValidates = true ∧
+      methods.all (fun m => m.unpackFirst && m.parses && (findArgs argsTypes m.argsType).isSome) = true ∧
+      methods.length ≥ 20 := by decide
+
+set_option maxRecDepth 8192 in
+/-- **obligation over the regenerated table**: every potentially panicking construct inside a precompile method's `Run`, the
+in-package functions it reaches and the keeper methods it calls directly is locally guarded, or its requirement on the
+decoded arguments is entailed by the method's own `Validate` (regenerated program), or it is on the reviewed list.  Removing
+or weakening a `Validate` check that `Run` relies on, or adding an unguarded construct, breaks this proof. -/
+theorem run_sites_ok : runSites.all runSiteOk = true := by decide
+
+set_option maxRecDepth 8192 in
+/-- every requirement in the table is entailed by the corresponding `Validate` program (ABI facts allowed) -/
+theorem all_reqs_entailed : reqSites.all (fun x => entails true x.2.2 x.2.1) = true := by decide
+
+set_option maxRecDepth 8192 in
+/-- ABI decoding is needed only for size bounds of single uint256 inputs and for array elements: every nil, sign, length
+and sum requirement is established by `Validate` ALONE (even for a hand-built struct with nil fields) -/
+theorem needsAbiOnlyForBounds : reqSites.all (fun x => x.2.1.isBound || entails false x.2.2 x.2.1) = true := by decide
+
+theorem mem_reqSites {s : RunSite} {r : Req} (hs : s ∈ runSites) (hr : s.req = some r) :
+    (s, r, progOf argsTypes s.argsType) ∈ reqSites := by
+  simp only [reqSites, List.mem_filterMap]
+  exact ⟨s, hs, by simp [hr]⟩
+
+/-- **`Validate` implies `Run` is safe** — for every site of the regenerated inventory that carries a requirement, every
+environment (decoded argument struct) that went through ABI decoding and on which the method's `Validate` returns nil
+satisfies the requirement: `args.Amounts[i]` is in range for every `i` ranging over `args.Tokens`, `args.TxID` is not nil
+where `Run` dereferences it, `amount + fee` fits `sdkmath.Int` where `Run` converts it, … -/
+theorem validate_implies_run_safe (s : RunSite) (hs : s ∈ runSites) (r : Req) (hr : s.req = some r)
+    (env : Env) (habi : AbiDecoded env) (hok : run env (progOf argsTypes s.argsType) = .ok) : r.holds env := by
+  have h := List.all_eq_true.1 all_reqs_entailed _ (mem_reqSites hs hr)
+  exact entails_sound env true (fun _ => habi) _ r h hok
+
+/-- the index form, without any assumption on how the struct was produced: if `Validate` returns nil then every index
+expression of `Run` whose bound comes from another field is in range (`len(args.Tokens) ≤ len(args.Amounts)` for
+`args.Amounts[i]`, `i` ranging over `args.Tokens`) -/
+theorem validate_implies_index_safe (s : RunSite) (hs : s ∈ runSites) (a b : String) (hr : s.req = some (.lenLe a b))
+    (env : Env) (hok : run env (progOf argsTypes s.argsType) = .ok) : env.len a ≤ env.len b := by
+  have h := List.all_eq_true.1 needsAbiOnlyForBounds _ (mem_reqSites hs hr)
+  simp only [Req.isBound, Bool.false_or] at h
+  exact entails_sound env false (fun h => by cases h) _ _ h hok
+
+/-- the same for every nil / sign / sum requirement (no ABI assumption) -/
+theorem validate_implies_run_safe_noabi (s : RunSite) (hs : s ∈ runSites) (r : Req) (hr : s.req = some r)
+    (hb : r.isBound = false) (env : Env) (hok : run env (progOf argsTypes s.argsType) = .ok) : r.holds env := by
+  have h := List.all_eq_true.1 needsAbiOnlyForBounds _ (mem_reqSites hs hr)
+  simp only [hb, Bool.false_or] at h
+  exact entails_sound env false (fun h => by cases h) _ r h hok
+
+/-- the inventory is not vacuous: it contains the index site of `bridgeCall` with its length requirement, and the
+`amount + fee` conversion of `crossChain` with its size requirement -/
+theorem run_inventory_has_key_sites :
+    runSites.any (fun s => s.recv == "BridgeCallMethod" && s.meth == "Run" && s.kind == "index" &&
+      s.req == some (.lenLe "Tokens" "Amounts")) = true ∧
+    runSites.any (fun s => s.recv == "CrossChainMethod" && s.meth == "Run" && s.kind == "bigint256" &&
+      s.req == some (.sumFits256 "Amount" "Fee")) = true ∧
+    runSites.any (fun s => s.recv == "CancelSendToExternalMethod" && s.kind == "nilarg" && s.req == some (.nonNil "TxID")) = true := by
+  decide
+
+/-- **`Validate` never panics** on an ABI-decoded struct, for every argument struct of both precompiles -/
+theorem validate_never_panics (t : ArgsType) (ht : t ∈ argsTypes) (env : Env) (habi : AbiDecoded env) :
+    run env t.prog ≠ .panic := by
+  have h : argsTypes.all (fun t => nilSafe true t.prog) = true := by decide
+  exact nilSafe_sound env true (fun _ => habi) _ (List.all_eq_true.1 h t ht)
+
+/-- … and, except for `BridgeCallArgs` (whose `args.Value.Sign()` has no nil test in front of it), not even on a hand-built
+struct with nil big-integer fields: every other dereference is preceded by its `== nil ||` test -/
+theorem validate_never_panics_on_nil (t : ArgsType) (ht : t ∈ argsTypes) (hn : t.name ≠ "BridgeCallArgs") (env : Env) :
+    run env t.prog ≠ .panic := by
+  have h : argsTypes.all (fun t => t.name == "BridgeCallArgs" || nilSafe false t.prog) = true := by decide
+  have h2 := List.all_eq_true.1 h t ht
+  simp only [Bool.or_eq_true, beq_iff_eq] at h2
+  rcases h2 with h2 | h2
+  · exact absurd h2 hn
+  · exact nilSafe_sound env false (fun h => by cases h) _ h2
+
+set_option maxRecDepth 8192 in
+/-- no stale review entries for `Run` sites -/
+theorem reviewed_run_entries_live :
+    reviewedRun.all (fun r => runSites.any fun s => r.covers s && !s.guarded && s.req.isNone) = true := by decide
+
+-- the check distinguishes: a `Validate` with an early `return nil` in front of the length comparison (the shape of a
+-- "pure message call needs no amounts" shortcut) no longer entails the index requirement, and an environment exists
+-- on which it returns nil with more tokens than amounts
+example : entails true
+    [.ifRet (.atom (.lenK "Amounts" .eq 0)) false, .ifRet (.atom (.lenRel "Tokens" .ne "Amounts")) true, .ret false]
+    (.lenLe "Tokens" "Amounts") = false := by decide
+example : entails false
+    [.ifRet (.atom (.lenRel "Tokens" .ne "Amounts")) true, .ifRet (.atom (.lenK "Amounts" .eq 0)) false, .ret false]
+    (.lenLe "Tokens" "Amounts") = true := by decide
+example : ∃ env : Env,
+    run env [.ifRet (.atom (.lenK "Amounts" .eq 0)) false, .ifRet (.atom (.lenRel "Tokens" .ne "Amounts")) true, .ret false] = .ok ∧
+      ¬ env.len "Tokens" ≤ env.len "Amounts" :=
+  ⟨{ len := fun f => if f == "Tokens" then 1 else 0, big := fun _ => some 0, elemsOk := fun _ => true, zeroAddr := fun _ => false,
+     emptyStr := fun _ => false, zeroArr := fun _ => false, ext := fun _ _ => false, num := fun _ => 0 }, by decide⟩
+
+end Run
 
 end FxVerif.Props.C20
